@@ -83,6 +83,8 @@ impl Row {
     pub open spec fn p_mul(self, l: int, i: int) -> int { rmul(self.sel_mul(l), emul(self.a(l), self.b(l))[i] - self.out(l)[i]) }
     pub open spec fn p_bool0(self, l: int) -> int { rmul(rmul(self.pf(l, P_SEL_BOOL), self.a(l)[0]), self.a(l)[0] - 1) }
     pub open spec fn p_booli(self, l: int, i: int) -> int { rmul(self.pf(l, P_SEL_BOOL), self.a(l)[i]) }
+    /// runner BoolCheck: `out := a` (the checked value is what the row puts on the bus through `out`)
+    pub open spec fn p_boolout(self, l: int, i: int) -> int { rmul(self.pf(l, P_SEL_BOOL), self.a(l)[i] - self.out(l)[i]) }
     pub open spec fn p_muladd(self, l: int, i: int) -> int { rmul(self.pf(l, P_SEL_MULADD), emul(self.a(l), self.b(l))[i] + self.c(l)[i] - self.out(l)[i]) }
     /// one runner Horner step from this row's out to the next row's out
     pub open spec fn p_single(self, l: int, i: int) -> int {
@@ -127,6 +129,7 @@ impl Row {
         &&& forall|i: int| 0 <= i < self.d ==> #[trigger] self.p_mul(l, i) == 0
         &&& self.p_bool0(l) == 0
         &&& forall|i: int| 1 <= i < self.d ==> #[trigger] self.p_booli(l, i) == 0
+        &&& forall|i: int| 0 <= i < self.d ==> #[trigger] self.p_boolout(l, i) == 0
         &&& forall|i: int| 0 <= i < self.d ==> #[trigger] self.p_muladd(l, i) == 0
         &&& (if l == 0 && self.has_extra() { self.packed_ok() } else { self.single_ok(l) })
     }
@@ -270,6 +273,7 @@ def build():
         ('add_row_is_runner_add', r'^sel_add\b', 'e_.v@ == r.p_add(lane as int, i as int)'),
         ('mul_row_is_runner_mul', r'^sel_mul\b', 'e_.v@ == r.p_mul(lane as int, i as int)'),
         ('bool_row_first_coefficient', r'^sel_bool\b[^\[]*\[0\]', 'e_.v@ == r.p_bool0(lane as int)'),
+        ('bool_row_out_is_the_checked_value', r'^sel_bool\b.*\bout\[i\]', 'e_.v@ == r.p_boolout(lane as int, i as int)'),
         ('bool_row_higher_coefficients_zero', r'^sel_bool\b[^\[]*\[i\]', 'e_.v@ == r.p_booli(lane as int, i as int)'),
         ('muladd_row_is_runner_muladd', r'^sel_muladd\b', 'e_.v@ == r.p_muladd(lane as int, i as int)'),
         ('b_squared_column', r'^any_packed_cur\b', 'e_.v@ == r.p_bsq(i as int)'),
@@ -335,6 +339,7 @@ def build():
         ('coefficients_done', 'builder.ok@ == (ok_k2 && (forall|j: int| 0 <= j < i ==> #[trigger] r.p_k2(j) == 0) && (forall|j: int| 0 <= j < i ==> #[trigger] r.p_ge3(j) == 0))')], nth=n_k2)
     coef_loop('b_squared_column', 'ok_bsq', 'r.p_bsq(j)', f'{G} && {L} && {P} && any_packed_cur.v@ == r.sum_sel(r.pl, 2, r.k + 1) && ' + vec('bb', 'emul(r.b(0), r.b(0))'))
     coef_loop('muladd_row_is_runner_muladd', 'ok_ma', 'r.p_muladd(ln, j)', f'{G} && {L} && {AB_} && sel_muladd.v@ == r.pf(ln, P_SEL_MULADD)')
+    coef_loop('bool_row_out_is_the_checked_value', 'ok_bo', 'r.p_boolout(ln, j)', f'{G} && {L} && sel_bool.v@ == r.pf(ln, P_SEL_BOOL)')
     coef_loop('bool_row_higher_coefficients_zero', 'ok_bi', 'r.p_booli(ln, j)', f'{G} && {L} && sel_bool.v@ == r.pf(ln, P_SEL_BOOL)', lo='1')
     coef_loop('mul_row_is_runner_mul', 'ok_mul', 'r.p_mul(ln, j)', f'{G} && {L} && {AB_} && sel_mul.v@ == r.sel_mul(ln)')
     coef_loop('add_row_is_runner_add', 'ok_add', 'r.p_add(ln, j)', f'{G} && {L} && sel_add.v@ == r.pf(ln, P_SEL_ADD)')
